@@ -82,6 +82,8 @@ class Scenario:
 
     def setup(self):
         shutil.rmtree(self.top, ignore_errors=True)
+        shutil.rmtree(self.top + '.lt', ignore_errors=True)
+        self.alias = None
         os.makedirs(self.home)
         os.makedirs(self.cwd)
         # bystanders that must never be touched
@@ -122,6 +124,14 @@ class Scenario:
             open(os.path.join(self.skilldir, 'NOTES.local'), 'w').write('mine\n')
             os.makedirs(os.path.join(self.base, 'other-skill'), exist_ok=True)
             open(os.path.join(self.base, 'other-skill', 'SKILL.md'), 'w').write('another skill\n')
+        elif self.prior == 'base-symlink':
+            # the base directory is a symbolic link to a directory kept elsewhere (dotfiles layouts)
+            target = self.top + '.lt'
+            os.makedirs(os.path.join(target, 'other-skill'))
+            open(os.path.join(target, 'other-skill', 'SKILL.md'), 'w').write('another skill\n')
+            os.makedirs(os.path.dirname(self.base), exist_ok=True)
+            os.symlink(target, self.base)
+            self.alias = {target: self.base}
         elif self.prior == 'base-is-file':
             os.makedirs(os.path.dirname(self.base), exist_ok=True)
             open(self.base, 'w').write('i am a file\n')
@@ -154,7 +164,7 @@ def run_strace(cli, sc, inject=None, timeout=60):
     except subprocess.TimeoutExpired:
         raise pl.ExitTwo('installer under strace timed out: %s' % cmd)
     text = open(tr).read() if os.path.exists(tr) else ''
-    events, raw, end = fstrace.parse(text, sc.top)
+    events, raw, end = fstrace.parse(text, sc.top, alias=getattr(sc, 'alias', None))
     return events, raw, end, so, se, prior
 
 
@@ -485,7 +495,7 @@ def main_c16(tier):
             nruns = 0
             meta = {}
             flagsets = ['default', 'user', 'path-rel', 'path-abs', 'path-user', 'path-rel-user']
-            priors = ['absent', 'older', 'older-samesize', 'older-modes', 'unrelated', 'base-is-file']
+            priors = ['absent', 'older', 'older-samesize', 'older-modes', 'unrelated', 'base-is-file', 'base-symlink']
             scs = []
             for agent in sorted(table):
                 for fl in flagsets:
